@@ -71,6 +71,7 @@ class RecDict(dict):
 
 
 _SUB = contextvars.ContextVar("verif_sub_call", default=None)
+_FIN = contextvars.ContextVar("verif_finish_call", default=None)
 
 
 class RecSet(set):
@@ -79,6 +80,13 @@ class RecSet(set):
     def __init__(self) -> None:
         super().__init__()
         self.removals: list = []
+        self.events = None
+
+    def __iter__(self):
+        # finish() walks the processing set in its one atomic block: the instant of a concurrent finish's effect
+        if _FIN.get() is not None and self.events is not None:
+            self.events.append(("fin_effect", CLOCK.now_us(), None, False))
+        return super().__iter__()
 
     def remove(self, m):
         self.removals.append((_SUB.get(), num(m.key.id_)))
@@ -113,6 +121,7 @@ class MemWorld:
             dq.delayed = RecDict(self.events)
             dq.dead = RecList(self.events)
             dq.processing = RecSet()
+            dq.processing.events = self.events
         for c, (q, cat, topics) in consumers.items():
             cons = self.w.mb.get_consumer(f"q{q}", None if topics is None else [f"t{t}" for t in topics], None, CATS[cat])
             await cons.start()
@@ -370,6 +379,62 @@ async def exec_ops(mw: MemWorld, ops: list, loop, terms: list, obs: list, trace:
                           "polls": [(t, u) for (_, t, u) in all_p], "delivered": delivered, "returned": got is not None,
                           "got": got, "t_return": CLOCK.now_us(), "n_updates": sum(1 for (_, _, u) in all_p if u),
                           "put_at": p_holder.get("t"), "dead_appends": dead_appends(mw.events)})
+        elif kind == "consume_with_finish":
+            # consumer c is inside consume() when ANOTHER consumer f of the same queue is finished, `k` loop iterations
+            # after c's call started (k sweeps the iterations between c's processing.add and its return)
+            c, f = o["c"], o["f"]
+            q, cat, topics = mw.cspec[c]
+            fq = mw.cspec[f][0]
+            mw.events.clear()
+            places_before = mw.abstract()["places"]
+            mine = sorted(i for i, (cc, qq) in held_before.items() if cc == f and qq == fq)
+            for q_ in mw.qs:
+                mw.w.mb.queues[f"q{q_}"].processing.removals.clear()
+
+            async def do_fin():
+                for _ in range(o["k"]):
+                    await asyncio.sleep(0)
+                _FIN.set(f)
+                _SUB.set("fin")
+                await mw.consumers[f].finish()
+                await mw.consumers[f].start()
+
+            async def do_consume2():
+                tok = _CUR.set(c)
+                try:
+                    return await asyncio.wait_for(mw.consumers[c].consume(), o["timeout"])
+                except asyncio.TimeoutError:
+                    return None
+                finally:
+                    _CUR.reset(tok)
+
+            got, _ = await asyncio.gather(do_consume2(), do_fin())
+            if got is not None:
+                mw.book[num(got[0].id_)] = c
+            held_after = mw.held()
+            new = [i for i in held_after if i not in held_before]
+            delivered = num(got[0].id_) if got is not None else (new[0] if new else 0)
+            tl = "[]" if topics is None else ct.zlist(topics)
+            evs = [tuple(ev) for ev in mw.events]
+            cut_at = next((k_ for k_, ev in enumerate(evs) if ev[0] == "fin_effect"), len(evs))
+            before_p = polls_of(mw, evs[:cut_at])
+            all_p = polls_of(mw, evs)
+            after_p = all_p[len(before_p):]
+            removed = [i for q_ in mw.qs for (j, i) in mw.w.mb.queues[f"q{q_}"].processing.removals if j == "fin"]
+            order = [i for i in removed if i in mine] + [i for i in mine if i not in removed]
+            for j, (_, t, u) in enumerate(before_p):
+                terms.append(f"(OPoll {c} {q} {CAT_TERM[cat]} {tl} {ct.Z(t)} {ct.B(u)})")
+                obs.append(delivered if (not after_p and j == len(before_p) - 1) else 0)
+            terms.append(f"Q(OFinish {f} {fq} {ct.zlist(order)})")
+            obs.append(0)
+            for j, (_, t, u) in enumerate(after_p):
+                terms.append(f"(OPoll {c} {q} {CAT_TERM[cat]} {tl} {ct.Z(t)} {ct.B(u)})")
+                obs.append(delivered if j == len(after_p) - 1 else 0)
+            trace.append({"op": "finish_concurrent", "c": f, "queue": fq, "t": now, "returned": mine, "concurrent_with_consume_of": c,
+                          "took_from_others": [i for i in removed if i not in mine]})
+            trace.append({"op": "consume", "c": c, "queue": q, "cat": cat, "topics": topics, "t": now,
+                          "polls": [(t, u) for (_, t, u) in all_p], "delivered": delivered, "returned": got is not None,
+                          "got": got, "t_return": CLOCK.now_us(), "dead_appends": dead_appends(mw.events), "before": places_before})
         elif kind == "consume_many":
             # several consumers polling concurrently: polls interleave, each poll is attributed through a context variable
             mw.events.clear()
@@ -579,8 +644,14 @@ def gen_history(rng, *, n_ops: int, cuts: bool = True, delays: bool = True, ttls
                         "timeout": rng.choice([0.0035, 0.0105])})
         elif r < 0.82:
             ops.append({"op": "terminal"})          # resolved at run time against what is held
-        elif r < 0.86:
+        elif r < 0.85:
             ops.append({"op": "finish", "c": rng.choice(list(consumers))})
+        elif r < 0.87:
+            c_ = rng.choice(list(consumers))
+            same_q = [x for x in consumers if x != c_ and consumers[x][0] == consumers[c_][0]]
+            if same_q:
+                ops.append({"op": "consume_with_finish", "c": c_, "f": rng.choice(same_q), "k": rng.choice([0, 1, 1, 2, 2, 3]),
+                            "timeout": rng.choice([0.0035, 0.0105])})
         elif r < 0.89:
             ops.append({"op": "together_gen"})      # finish() of a holder concurrently with terminal calls on held messages
         else:
